@@ -511,9 +511,14 @@ def safeKind : NodeKind → Bool
   | .obj n css => noLt n && safeVal css
   | _ => true
 
+def safeLeafKind : LeafKind → Bool
+  | .num n css => noLt n && safeVal css
+  | .other n css => noLt n && safeVal css
+  | _ => true
+
 mutual
   def safeTree : Tree → Bool
-    | .leaf .. => true
+    | .leaf _ _ kind _ _ _ => safeLeafKind kind
     | .node _ _ kind _ children => safeKind kind && safeTrees children
   def safeTrees : List Tree → Bool
     | [] => true
@@ -525,12 +530,23 @@ theorem safeTrees_iff (ts : List Tree) : safeTrees ts = true ↔ ∀ t ∈ ts, s
   | nil => simp [safeTrees]
   | cons t ts ih => simp [safeTrees, ih]
 
-theorem leafKind_css_safe (k : LeafKind) : safeVal k.cssName = true := by cases k <;> decide
-theorem leafKind_title_noLt (k : LeafKind) : noLt k.title = true := by cases k <;> decide
+theorem leafKind_css_safe (k : LeafKind) (h : safeLeafKind k = true) : safeVal k.cssName = true := by
+  cases k with
+  | num n css => simp only [safeLeafKind, Bool.and_eq_true] at h; exact h.2
+  | other n css => simp only [safeLeafKind, Bool.and_eq_true] at h; exact h.2
+  | _ => decide
 
 theorem noLt_append (a b : Str) (ha : noLt a = true) (hb : noLt b = true) : noLt (a ++ b) = true := by
   simp only [noLt, List.all_append, Bool.and_eq_true] at *
   exact ⟨ha, hb⟩
+
+theorem leafKind_title_noLt (k : LeafKind) (h : safeLeafKind k = true) : noLt k.title = true := by
+  cases k with
+  | num n css => simp only [safeLeafKind, Bool.and_eq_true] at h; exact h.1
+  | other n css =>
+    simp only [safeLeafKind, Bool.and_eq_true] at h
+    exact noLt_append _ _ h.1 (by decide)
+  | _ => decide
 
 theorem nodeKind_css_safe (k : NodeKind) (h : safeKind k = true) : safeVal k.cssName = true := by
   cases k with
@@ -546,14 +562,14 @@ theorem nodeKind_title_noLt (k : NodeKind) (h : safeKind k = true) : noLt k.titl
 
 theorem tree_css_safe (t : Tree) (h : safeTree t = true) : safeVal t.cssName = true := by
   cases t with
-  | leaf k p kind repr raw tip => exact leafKind_css_safe kind
+  | leaf k p kind repr raw tip => exact leafKind_css_safe kind h
   | node k p kind tip ch =>
     simp only [safeTree, Bool.and_eq_true] at h
     exact nodeKind_css_safe kind h.1
 
 theorem tree_title_noLt (t : Tree) (h : safeTree t = true) : noLt t.title = true := by
   cases t with
-  | leaf k p kind repr raw tip => exact leafKind_title_noLt kind
+  | leaf k p kind repr raw tip => exact leafKind_title_noLt kind h
   | node k p kind tip ch =>
     simp only [safeTree, Bool.and_eq_true] at h
     exact nodeKind_title_noLt kind h.1
